@@ -227,6 +227,22 @@ func WorkerMain(h Harness, e WorkerEnv) int {
 			fmt.Fprintln(os.Stderr, "replay decode:", err)
 			return 2
 		}
+		if n, _ := strconv.Atoi(os.Getenv("VERIF_LOOP")); n > 0 {
+			// development aid: the same spec many times in one process
+			counts := map[string]int{}
+			for i := 0; i < n; i++ {
+				r := h.Run(spec)
+				var ks []string
+				for _, v := range r.Violations {
+					ks = append(ks, v.Class+"|"+v.Signature)
+				}
+				sort.Strings(ks)
+				counts[fmt.Sprintf("%016x %v", r.LogHash, ks)]++
+			}
+			for k, c := range counts {
+				fmt.Printf("LOOP %d x %s\n", c, k)
+			}
+		}
 		res := h.Run(spec)
 		out.Runs = 1
 		nv := findViolation(res, &rf.Violation)
@@ -340,6 +356,17 @@ func WorkerMain(h Harness, e WorkerEnv) int {
 					var got []string
 					for _, x := range again.Violations {
 						got = append(got, x.Class+"|"+x.Signature+"|"+x.LogHash)
+					}
+					if os.Getenv("VERIF_DEBUG_UNSTABLE") != "" {
+						for i := 0; i < 4; i++ {
+							r := h.Run(mspec)
+							var ks []string
+							for _, x := range r.Violations {
+								ks = append(ks, x.Class+"|"+x.Signature)
+							}
+							fmt.Fprintf(os.Stderr, "DEBUG-UNSTABLE rerun %d: %016x %v\n", i, r.LogHash, ks)
+						}
+						fmt.Fprintf(os.Stderr, "DEBUG-UNSTABLE original violation: %s|%s hash %s detail %s\n", mv.Class, mv.Signature, mv.LogHash, mv.Detail)
 					}
 					out.Note += fmt.Sprintf("UNSTABLE minimised replay for %s (hash %s): second execution gave %v spec=%s; ", key, mv.LogHash, got, raw)
 				}
